@@ -488,9 +488,51 @@ class FnWeaver:
             if lab is not None and s.toks[lab][0] == 'life':
                 a = s.toks[lab][1]
         b = s.toks[cb][2]
+        if '$CALLARGS' in text:
+            # the argument list of the call that yields the iterable (`for PAT in RECV.method(ARGS) {`), verbatim from the source
+            last = s.prev_code(ob)
+            args = None
+            if last is not None and s.is_p(last, ')'):
+                op = s.matches()[last]
+                args = self.text[s.toks[op][2]:s.toks[last][1]]
+            if args is None:
+                self.lost.append('summarize %d of %s: the iterable is not a call' % (n, self.qual))
+                return
+            text = text.replace('$CALLARGS', args.strip())
         nl = self.text[a:b].count('\n')
-        self.edits.append((a, b, [(text + '\n' * nl, 'tmpl', self.tmpl_file, 0)]))
+        self.edits.append((a, b, [(text + '\n' * nl, 'repo', self.rel, self.line_at(a))]))
         self.rules.add('D18')
+
+    def cut_statements(self, rx_from, rx_to, replacement):
+        """D19: the statements from the first line matching `rx_from` to the first later line matching `rx_to` (inclusive) are replaced by one
+        call to an external function declared in the template.  Only what that call is handed can change; nothing else is concluded about
+        the removed statements (only use: the floating-point round-trip-time estimate)."""
+        r1, r2 = re.compile(rx_from), re.compile(rx_to)
+        p = self.parts
+        body_a = self.src.toks[p['body_open']][2]
+        body_b = self.src.toks[p['body_close']][1]
+        pos = 0
+        a = b = None
+        for ln in self.text.split('\n'):
+            x, y = pos, pos + len(ln)
+            pos = y + 1
+            if x < body_a or y > body_b:
+                continue
+            if a is None:
+                if r1.search(ln):
+                    a = x + (len(ln) - len(ln.lstrip()))
+                    if r2.search(ln) and rx_from != rx_to:
+                        b = y
+                        break
+            elif r2.search(ln):
+                b = y
+                break
+        if a is None or b is None:
+            self.lost.append('cut /%s/../%s/ in %s' % (rx_from, rx_to, self.qual))
+            return
+        nl = self.text[a:b].count('\n')
+        self.edits.append((a, b, [(replacement + '\n' * nl, 'tmpl', self.tmpl_file, 0)]))
+        self.rules.add('D19')
 
     def replace_arm(self, regex, replacement):
         """D8: the block of the match arm whose first line matches `regex` is replaced by `replacement` (nothing is concluded about that arm)"""
@@ -1065,6 +1107,9 @@ def weave(unit_path):
                     fw.add_end(blk, blk_line)
                 elif sd == 'loopend':
                     fw.add_loop_end(int(sarg), blk, blk_line)
+                elif sd == 'cut':
+                    mm3 = re.match(r'/(.*?)/\s*\.\.\s*/(.*?)/\s*=>\s*(.*)$', sarg)
+                    fw.cut_statements(mm3.group(1), mm3.group(2), mm3.group(3))
                 elif sd == 'summarize':
                     mm3 = re.match(r'(\d+)\s*=>\s*(.*)$', sarg)
                     fw.summarize_loop(int(mm3.group(1)), mm3.group(2))
